@@ -35,3 +35,14 @@ run $B/G3_rename_power_loop.diff C09 C08
 run $B/G4_rename_find_boundary.diff C09
 run $B/G5_rename_zero_div.diff C18 C14
 run $B/G7_rename_proportion.diff C11
+run $B/H1_commute_ratio_cov.diff C06 C14
+run $B/H2_commute_add_mean_cov.diff C14
+run $B/H3_commute_power_sizes.diff C08 C09
+run $B/H4_commute_solve_bounds.diff C09
+run $B/H5_commute_proportion.diff C11
+run $B/H6_commute_datasets.diff C20
+run $B/H7_commute_sidak.diff C10
+run $B/I1_reorder_analyze_aggregates.diff C04 C06 C18
+run $B/I2_commute_stepup.diff C10
+run $B/I3_commute_coef_test.diff C06 C18
+run $B/I4_k_expr.diff C10
